@@ -35,7 +35,7 @@ import (
 //   storeid <v> <S>                -> ok|err ; <S'>
 //   persist <w> <S>                -> ok|err ; <S'>
 //   crash <class> <N> <action..> <S>
-//        the action (start | storeid v | persist w) runs in a CHILD PROCESS under
+//        the action (start | storeid v | persist w | persistseq w1 w2 w3 | startpersist w) runs in a CHILD PROCESS under
 //        `strace -f -e inject=<class>:signal=KILL:when=N` (killed on entry of the N-th call of
 //        that class: open|write|rename|mkdir|close|unlink); then this process performs a start.
 //                                  -> killed|clean <S1> ; <R> ; <S2>
@@ -291,13 +291,30 @@ func c34Act(dir string, act []string) error {
 		must(err)
 		m := sleep.NewManager(c34SleepCfg(), dir, nil)
 		return sleep.VerifC34Persist(m, sleep.State(v%4), uint64(v/4))
+	case "persistseq": // a long-running agent: ONE sleep manager saves three times
+		m := sleep.NewManager(c34SleepCfg(), dir, nil)
+		var last error
+		for _, t := range act[1:4] {
+			v, err := strconv.Atoi(t)
+			must(err)
+			last = sleep.VerifC34Persist(m, sleep.State(v%4), uint64(v/4))
+		}
+		return last
+	case "startpersist": // first start of an agent that then saves its sleep state, in one process
+		if err := c34Act(dir, []string{"start"}); err != nil {
+			return err
+		}
+		return c34Act(dir, []string{"persist", act[1]})
 	}
 	panic("bad action " + act[0])
 }
 
 func c34ActLen(act string) int {
-	if act == "start" {
+	switch act {
+	case "start":
 		return 1
+	case "persistseq":
+		return 4
 	}
 	return 2
 }
